@@ -207,7 +207,7 @@ def _ensure_locked(variant, v, repo, bridge, verbose):
                  ["-L" + out, "-lawkward", "-Wl,-rpath,$ORIGIN"])
         os.symlink(gendir, os.path.join(out, "gen"))
         open(done, "w").write("ok")
-        _prune(os.path.join(BUILD, variant), keep=6)
+        _prune(os.path.join(BUILD, variant), keep=14)
     if verbose:
         print("vbuild %s: %d compiled, %.1fs -> %s" % (variant, len(jobs), time.time() - t0, out),
               file=sys.stderr)
